@@ -190,4 +190,17 @@ func init() {
 				BoundT: "1-2 requests (connect and/or createStream with symbolic distinct ids), 2 threads, all schedules"},
 		},
 	})
+	reg(&propSpec{
+		ID:   "C08",
+		Rule: "Harnesses in harness/rtmp/c08.go, harness/flv/c08.go, harness/errors/c08.go: the fault position (cut offset of the byte stream, index of the failing write call, bytes accepted by it) is a forked variable over its whole range; message/tag contents are symbolic.",
+		Assumptions: append([]string{"transport errors: io.EOF for a cut stream, or a private sentinel error value (must come back identical)"}, rtmpAssume...),
+		Harnesses: []harnessSpec{
+			{Pkg: "rtmp", Func: "HarnessC08_ReadCut", Conc: 256, Labels: []string{"read-cut"}, Bound: "sessions of 1-2 messages (payload 1-3 symbolic bytes, optionally a Set Chunk Size 2 so that a message spans chunks) written by the library; every cut offset 0..len; EOF or sentinel error; whole or 1-byte reads"},
+			{Pkg: "rtmp", Func: "HarnessC08_WriteFail", Labels: []string{"write-fail", "write-ok"}, Bound: "message of 1-5 symbolic bytes or 9000 bytes (several transport writes); failing write call index 0-1 accepting 0-2 bytes"},
+			{Pkg: "rtmp", Func: "HarnessC08_Handshake", Labels: []string{"handshake-io"}, Bound: "C0C1 stream cut at {0,1,2,700,1536,1537}; each handshake write on a failing writer"},
+			{Pkg: "flv", Func: "HarnessC08_FlvReadCut", Conc: 256, Labels: []string{"flv-cut-body", "flv-cut-header", "flv-cut-none", "flv-cut-taghdr"}, Bound: "reference-written file of 1-2 tags with 0-2 symbolic body bytes; every cut offset; EOF or sentinel; whole or 1-byte reads"},
+			{Pkg: "flv", Func: "HarnessC08_FlvWriteFail", Labels: []string{"flv-write-fail"}, Bound: "header + one tag; failing write call index 0-3 accepting 0-2 bytes"},
+			{Pkg: "errors", Func: "HarnessC08_Errors", Labels: []string{"errors"}, Bound: "nesting depth 1-3 (thorough 1-4) over {WithStack, Wrap, Wrapf, WithMessage} on 4 kinds of root error (io.EOF, foreign error, New, Errorf)"},
+		},
+	})
 }
